@@ -64,9 +64,28 @@ def alloc_violations(facts, bodies):
             if not args:
                 continue
             size_arg = args[-1]
-            d = describe(b.origin_of_operand(size_arg))
+            o = b.origin_of_operand(size_arg)
+            d = describe(o)
             if DECODED.search(d) and 'cmp::min(' not in d:
                 out.append((b, s, d))
+                continue
+            # the size is a parameter of a helper (fn read_vec(source, len)): look at what the callers pass (one level)
+            for leaf in o.leaves():
+                if leaf.kind != 'param' or 'cmp::min(' in d:
+                    continue
+                idx = None
+                for dbg in b.rec.get('debug', []):
+                    if dbg['name'] == leaf.name and dbg.get('arg') is not None:
+                        idx = dbg['arg'] - 1
+                if idx is None:
+                    continue
+                for cs in facts.callers(b.nid):
+                    if '::test::' in cs.body.nid or idx >= len(cs.term['args']):
+                        continue
+                    cd = describe(cs.body.origin_of_operand(cs.term['args'][idx]))
+                    if DECODED.search(cd) and 'cmp::min(' not in cd:
+                        out.append((b, s, 'parameter `%s` <- %s at %s' % (leaf.name, cd[:70], cs.loc())))
+                        break
     return n, out
 
 
